@@ -53,7 +53,7 @@ func runC02(c *an.Ctx) {
 	R := fi.Term(integ.Params[1])
 	acc := slotAccesses(integ)
 	c.Count("ADDR", len(acc))
-	c.Floor("ADDR", 5)
+	c.Floor("ADDR", 1)
 	// ADDR
 	wantKey := fi.FieldOfTerm(R, "ShortID").Key()
 	var idxKey string
@@ -99,7 +99,7 @@ func runC02(c *an.Ctx) {
 		}
 	}
 	c.Count("STORE", len(stores))
-	c.Floor("STORE", 3)
+	c.Floor("STORE", 2)
 	for _, s := range stores {
 		facts := fi.FactsAt(s.st)
 		notBanned, notDup := false, false
